@@ -242,10 +242,9 @@ where
                         return Err(Fail::new(format!("{}: entry not normalized after batch_normalization", name)));
                     }
                     if orig.is_normalized() {
+                        // (a normalized non-identity entry has a unique normalized form, so 'same point and normalized' above says it
+                        // all; how an identity entry is written is not promised)
                         any_norm = true;
-                        if !raw_eq::<C>(orig, out) {
-                            return Err(Fail::new(format!("{}: batch_normalization rewrote an already-normalized entry", name)));
-                        }
                     } else {
                         any_work = true;
                     }
